@@ -13,6 +13,7 @@ import itertools
 from sa.astutil import norm, walk_no_nested
 from sa.c17_util import BV, Tok, TypeVal, Sim, Elaborator, ModelFault, Inst, Sig
 from sa.errors import AnalysisError
+from sa.loader import Repo, Module
 from sa.minieval import Evaluator
 from sa.report import RuleResult
 
@@ -31,41 +32,56 @@ EXPLANATION = (
     "valrdy_queues.py, cl_queues.py and the registers / register file / mux / interfaces they instantiate); nothing is "
     "imported or run. Each RTL queue or controller class is parsed and its construct is turned into a netlist model "
     "(signal declarations, connect / //= connections, //= lambda drivers, @update and @update_ff blocks, sub-components "
-    "resolved through the loader); the extracted equations are then evaluated for ONE cycle by an abstract evaluator "
-    "(n-bit vectors with Bits semantics, opaque message tokens, @= last-assignment-wins, <<= non-blocking) over an "
+    "and interfaces resolved through the loader); the extracted equations are then evaluated for ONE cycle by an abstract "
+    "evaluator (n-bit vectors with Bits semantics, opaque message tokens, @= last-assignment-wins, <<= non-blocking) over an "
     "exhaustively enumerated abstract state: reset in {0,1} x every representation-consistent register valuation "
-    "(count/head/tail with tail = head+count mod n; full bit; pointers + full bit; chain of two 1-entry stages) for "
-    "capacities n in {1,2,3,4} x every protocol-legal offer (en => rdy for en/rdy interfaces, free val/rdy). "
+    "(count/head/tail with tail = head+count mod n; full bit; enq/deq pointers + full bit; full bits of a chain of 1-entry "
+    "stages) for capacities n in {1,2,3,4} (5..8 in the thorough tier) x every protocol-legal offer (en => rdy for en/rdy "
+    "interfaces, free val/rdy). "
     "R-C17-rdy decides the control equations the property states: enq ready iff not full (pipe: or a dequeue happens), "
-    "dequeue ready/valid iff not empty (bypass: or an enqueue is offered), both low under reset where the family gates on "
-    "reset, for 19 controller / 1-entry classes of four interface families. R-C17-count decides the occupancy / pointer "
-    "update equations: count' = count + enq_xfer - deq_xfer, reset -> 0, head/tail advance iff their transfer with wrap at "
-    "num_entries-1, write enable = enq_xfer, write address = tail, read address = head, bypass mux select = empty, "
-    "free-entry output; full' of the 1-entry queues. R-C17-step evaluates the complete queues (wrappers with their "
-    "controller, data path, register file, mux; 1-entry queues with their Reg/RegEn/RegRst) one cycle with message tokens: "
-    "the message offered at the dequeue side is the oldest stored one (bypass: the offered one when empty), the stored "
-    "sequence after the edge is old + accepted - delivered, and the representation invariant is preserved, so the wiring "
-    "of the wrappers and of the data path is decided too. R-C17-cl decides the cycle-level queues: enq/deq/peek guards "
-    "(len < maxlen, len > 0) evaluated over small integers, enq and deq work on opposite ends of the deque and peek on the "
-    "deq end, capacity bound to num_entries, and the method-order constraints of each kind (pipe: deq, peek < enq; bypass: "
-    "enq < deq, peek; normal: rdy pulse computed before both rdy methods). R-C17-siblings compares the sibling copies with "
-    "each other (six n-entry up_reg blocks as functions of (state, reset, enq_xfer, deq_xfer); the 1-entry queues of one "
-    "kind across the four interface families as canonical transition relations). "
+    "dequeue ready/valid iff not empty (bypass: or an enqueue is offered; en/rdy send interface: deq.en = available & rdy), "
+    "both low under reset for the family that gates on reset, for 19 controller / 1-entry classes of four interface families. "
+    "R-C17-count decides the occupancy / pointer update equations of the same classes: count' = count + enq_xfer - deq_xfer, "
+    "reset -> 0, occupancy / free-entry output, the pointers stay consistent (tail = head + count mod n, wrap at "
+    "num_entries-1), and -- judged architecture-independently through a virtual storage driven by the controller's wen / "
+    "waddr / raddr / bypass select -- the slot selected for delivery holds the oldest message and the accepted message is "
+    "stored behind the youngest one; full' of the 1-entry queues. "
+    "R-C17-step evaluates the complete queues (wrappers with their controller, data path, register file, mux; 1-entry "
+    "queues with their Reg/RegEn/RegRst; BypassQueue2RTL as a chain) one cycle with message tokens: ready/valid at the "
+    "interface, the delivered message is the oldest stored one (bypass: the offered one when empty), the stored sequence "
+    "after the edge is old + accepted - delivered and the representation invariant is preserved, so the wiring of the "
+    "wrappers, of the data path and of the register file is decided too. "
+    "R-C17-cl decides the cycle-level queues: the enq / deq guards are evaluated in two phases over small integers (a cycle "
+    "starts with L0 of M entries, rdy pulses are computed from that state, enq and deq run in every order the extracted "
+    "method constraints allow, the first changes the live length seen by the second) against the kind's ready values, peek "
+    "guard len > 0, enq and deq on opposite ends of the deque and peek on the deq end, capacity bound to num_entries, and "
+    "the method-order constraints of each kind (pipe: deq, peek < enq; bypass: enq < deq, peek; normal: rdy pulse and peek "
+    "before both rdy methods). "
+    "R-C17-siblings compares the copies with each other without a specification: controllers / 1-entry queues of one kind "
+    "across the interface families as canonical transition relations (n, occupancy, enq_xfer, deq_xfer) -> occupancy' with "
+    "transfers taken from each copy's own ready/valid outputs. Every rule carries an embedded defective example that must "
+    "be flagged on every run. "
+    "Known finding: BypassQueue2RTL (chain of two 1-entry bypass queues) has enq.rdy low with one of two entries occupied. "
     "NOT decided: FIFO order / no loss over arbitrary histories and arbitrary capacities (only the one-cycle step relation "
-    "from representation-consistent states for n <= 4 is evaluated; the inductive conclusion is not claimed beyond that), "
-    "timing of the CL queues under a concrete schedule, the CL/RTL adapters of the interface files, behaviour of the "
-    "1-entry en/rdy and val/rdy Normal/Pipe queues under a mid-run reset (their full bit has no reset; recorded as an "
-    "observation).")
+    "from representation-consistent states for n <= 4 (8) is evaluated; the inductive conclusion is not claimed beyond "
+    "that), timing of the CL queues under a concrete schedule beyond the enq/deq order, the CL/RTL adapters of the "
+    "interface files (send_recv_ifcs.py, get_give_ifcs.py are only read for the port lists), behaviour of the 1-entry en/rdy "
+    "and val/rdy queues whose full bit has no reset under a mid-run reset (recorded as an observation). "
+    "stdlib/queues/valrdy_queues.py cannot be imported today (dead code); it is analysed anyway with its val/rdy interface "
+    "ports taken from a frozen table.")
 ASSUMPTIONS = [
-    "Bits arithmetic is modulo 2^n on equal widths and int operands must fit (C04); clog2/mk_bits as documented (C05)",
+    "Bits arithmetic is modulo 2^n on equal widths and int operands must fit (C04); clog2/mk_bits/bit slices as documented (C05)",
     "every schedule of the update blocks computes the same combinational values (C02) and update_ff blocks read old / "
     "write new values (C07): the model evaluates nets on demand and registers with non-blocking semantics",
     "data independence: queue data paths only copy / select messages, so one valuation with pairwise distinct opaque "
     "tokens represents all message values (any other operation on a message is rejected by the evaluator)",
     "small-scope hypothesis for the capacity: the control equations depend on num_entries only through comparisons with "
-    "num_entries / num_entries-1 and +-1 steps; n in {1,2,3,4} covers 1-entry, power-of-two and non-power-of-two wrap",
+    "num_entries / num_entries-1, +-1 steps and signal widths clog2(n), clog2(n+1); n in {1,2,3,4} (thorough: ..8) covers "
+    "1-entry, power-of-two and non-power-of-two wrap",
     "the environment obeys the interface protocol (en only when rdy for en/rdy interfaces); connect() of two interfaces "
-    "connects equally named ports",
+    "connects equally named ports; reset of a child component is the reset of its parent",
+    "method constraints M(a) < M(b) on non-blocking CL interfaces order both the method and its rdy; callers call rdy() "
+    "immediately before the method; an @update pulse block constrained before both rdy methods sees the start-of-cycle state",
     "stdlib/queues/valrdy_queues.py cannot be imported today (InValRdyIfc/OutValRdyIfc are not exported by stdlib/ifcs); "
     "its interface ports are modelled as 1-bit val/rdy and message msg",
 ]
@@ -91,12 +107,12 @@ FAMILIES = {
                   top=dict(offer='s.enq.en', enq_rdy='s.enq.rdy', enq_msg='s.enq.msg', deq_in='s.deq.en',
                            deq_avail='s.deq.rdy', deq_msg='s.deq.ret', count='s.count'),
                   ctrl=dict(offer='s.enq_en', enq_rdy='s.enq_rdy', deq_in='s.deq_en', deq_avail='s.deq_rdy',
-                            count='s.count', enq_xfer='s.enq_xfer', deq_xfer='s.deq_xfer')),
+                            count='s.count')),
     'stream': Fam('stream', 'val', 'rdy', False,
                   top=dict(offer='s.recv.val', enq_rdy='s.recv.rdy', enq_msg='s.recv.msg', deq_in='s.send.rdy',
                            deq_avail='s.send.val', deq_msg='s.send.msg', count='s.count'),
                   ctrl=dict(offer='s.recv_val', enq_rdy='s.recv_rdy', deq_in='s.send_rdy', deq_avail='s.send_val',
-                            count='s.count', enq_xfer='s.recv_xfer', deq_xfer='s.send_xfer')),
+                            count='s.count')),
     'enrdy': Fam('enrdy', 'en', 'drive', False,
                  top=dict(offer='s.enq.en', enq_rdy='s.enq.rdy', enq_msg='s.enq.msg', deq_in='s.deq.rdy',
                           deq_en='s.deq.en', deq_msg='s.deq.msg')),
@@ -238,24 +254,24 @@ class EncCount(Enc):
             for c in range(n + 1):
                 regs = {self.head: _bv(self.head, h), self.tail: _bv(self.tail, (h + c) % n),
                         self.count: _bv(self.count, c)}
-                contents = None
-                if self.store is not None:
-                    for i, s in enumerate(self.store):
-                        regs[self.nl.find(s)] = Tok(f'R{i}')
-                    contents = [Tok(f'R{(h + i) % n}') for i in range(c)]
+                for i, s in enumerate(self.store or ()):
+                    regs[self.nl.find(s)] = Tok(f'R{i}')
+                # (controller level: the storage is virtual -- slot i holds R<i> -- and is driven by wen / waddr)
+                contents = [Tok(f'R{(h + i) % n}') for i in range(c)]
                 out.append(St(regs, c, contents, f"head={h} tail={(h + c) % n} count={c}", head=h, tail=(h + c) % n))
         return out
 
-    def alpha(self, rv):
+    def alpha(self, rv, vstore=None):
         n = self.n
         h, t, c = rv[self.head].v, rv[self.tail].v, rv[self.count].v
         if h >= n or t >= n or c > n:
             return f"head'={h} tail'={t} count'={c} out of range for num_entries={n}"
         if (h + c) % n != t:
             return f"head'={h} tail'={t} count'={c}: tail' != head'+count' mod {n}"
-        contents = None
         if self.store is not None:
             contents = [rv[self.nl.find(self.store[(h + i) % n])] for i in range(c)]
+        else:
+            contents = [vstore[(h + i) % n] for i in range(c)]
         return c, contents, dict(head=h, tail=t)
 
 
@@ -280,15 +296,13 @@ class EncPtrFull(Enc):
             for c in range(n + 1):
                 e = (d + c) % n
                 regs = {self.enq: _bv(self.enq, e), self.deq: _bv(self.deq, d), self.full: BV(int(c == n), 1)}
-                contents = None
-                if self.store is not None:
-                    for i, s in enumerate(self.store):
-                        regs[self.nl.find(s)] = Tok(f'R{i}')
-                    contents = [Tok(f'R{(d + i) % n}') for i in range(c)]
+                for i, s in enumerate(self.store or ()):
+                    regs[self.nl.find(s)] = Tok(f'R{i}')
+                contents = [Tok(f'R{(d + i) % n}') for i in range(c)]
                 out.append(St(regs, c, contents, f"deq_ptr={d} enq_ptr={e} full={int(c == n)}", head=d, tail=e))
         return out
 
-    def alpha(self, rv):
+    def alpha(self, rv, vstore=None):
         n = self.n
         e, d, f = rv[self.enq].v, rv[self.deq].v, rv[self.full].v
         if e >= n or d >= n:
@@ -296,9 +310,10 @@ class EncPtrFull(Enc):
         if f and e != d:
             return f"full'=1 with enq_ptr'={e} != deq_ptr'={d}"
         c = n if f else (e - d) % n
-        contents = None
         if self.store is not None:
             contents = [rv[self.nl.find(self.store[(d + i) % n])] for i in range(c)]
+        else:
+            contents = [vstore[(d + i) % n] for i in range(c)]
         return c, contents, dict(head=d, tail=e)
 
 
@@ -323,7 +338,7 @@ class EncOne(Enc):
     def states(self):
         return [St({self.full: BV(f, 1), self.entry: Tok('R0')}, f, [Tok('R0')] * f, f"full={f}") for f in (0, 1)]
 
-    def alpha(self, rv):
+    def alpha(self, rv, vstore=None):
         f = rv[self.full].v
         return f, [rv[self.entry]] * f, {}
 
@@ -376,7 +391,7 @@ class EncChain(Enc):
             out.append(St(regs, sum(fulls), contents, "stage full bits (upstream first) = " + ''.join(map(str, fulls))))
         return out
 
-    def alpha(self, rv):
+    def alpha(self, rv, vstore=None):
         fulls = [rv[f].v for f, e in self.stages]
         contents = [rv[e] for (f, e), fl in reversed(list(zip(self.stages, fulls))) if fl]
         return sum(fulls), contents, {}
@@ -479,18 +494,27 @@ def _compare(oc, sim, nl, enc, sig, ports, fam, kind, n, st, p, reset, where, ct
             m = sim.read(sig['deq_msg'])
             oc.cmp('deq_msg', m == p.msg, lambda: f"{where}: {ports['deq_msg']} carries {m}, the oldest message is {p.msg}",
                    dev(m, p.msg))
-        if ctrl_level:
-            for k, want, what in (('wen', p.ex, 'enq_xfer'), ('waddr', st.tail, 'tail'), ('raddr', st.head, 'head')):
-                g = _v(sim.read(nl.lookup('s.' + k)))
-                oc.cmp(k, g == want, f"{where}: s.{k} is {g}, must be {what} = {want}", dev(g, want))
-            if nl.has('s.mux_sel'):
-                g = _v(sim.read(nl.lookup('s.mux_sel')))
-                oc.cmp('mux_sel', g == int(st.count == 0),
-                       f"{where}: s.mux_sel is {g}, the bypass path must be selected iff the queue is empty",
-                       dev(g, int(st.count == 0)))
+    vstore = None
+    if ctrl_level:
+        # the controller drives a (virtual) storage: slot i holds R<i>; it is read at raddr (bypass select: the offered
+        # message) and written with the offered message at waddr when wen.  Judged architecture-independently through
+        # the delivered message and the stored sequence after the edge.
+        vstore = [Tok(f'R{i}') for i in range(n)]
+        wen, waddr, raddr = (_v(sim.read(nl.lookup('s.' + k))) for k in ('wen', 'waddr', 'raddr'))
+        byp = _v(sim.read(nl.lookup('s.mux_sel'))) if nl.has('s.mux_sel') else 0
+        if not reset and p.av:
+            m = NEW if byp else (vstore[raddr] if raddr < n else f"slot {raddr} (out of range)")
+            oc.cmp('deq_msg', m == p.msg,
+                   lambda: f"{where}: raddr={raddr}{' with the bypass path selected' if byp else ''} delivers {m}, the oldest "
+                           f"message is {p.msg}", dev(m, p.msg))
+        if wen:
+            if waddr >= n:
+                oc.cmp('next_contents', False, f"{where}: write address {waddr} out of range", dev(waddr, f'< {n}'))
+                return
+            vstore[waddr] = NEW
     # sequential phase
     nxt = sim.step()
-    a = enc.alpha(nxt)
+    a = enc.alpha(nxt, vstore)
     io = f"{at} xfer={p.ex}{p.dx}"
     if isinstance(a, str):
         oc.cmp('next_inv', False, f"{where}: after the clock edge {a}", f"{io}: {a}")
@@ -504,14 +528,6 @@ def _compare(oc, sim, nl, enc, sig, ports, fam, kind, n, st, p, reset, where, ct
         oc.cmp('next_contents', contents2 == p.contents2,
                lambda: f"{where}: stored messages after the edge are {contents2}, must be {p.contents2}",
                f"{io}: {contents2} instead of {p.contents2}")
-    if ctrl_level and 'head' in extra:
-        wh = 0 if reset else ((st.head + 1) % n if p.dx else st.head)
-        wt = 0 if reset else ((st.tail + 1) % n if p.ex else st.tail)
-        oc.cmp('head_next', extra['head'] == wh,
-               f"{where}: read pointer after the edge is {extra['head']}, must be {wh}", f"{io}: {extra['head']} instead of {wh}")
-        oc.cmp('tail_next', extra['tail'] == wt,
-               f"{where}: write pointer after the edge is {extra['tail']}, must be {wt}", f"{io}: {extra['tail']} instead of {wt}")
-
 
 # ---------------------------------------------------------------------------
 # the classes under analysis
@@ -542,29 +558,96 @@ def _targets():
 _CACHE = {}
 
 
-def analyse_all(repo):
-    """elaborate and evaluate every target once per run (shared by the rules)"""
+def _reads_reset(nl):
+    for b in nl.blocks:
+        if isinstance(b.node, ast.AST) and any(isinstance(x, ast.Attribute) and x.attr == 'reset' for x in ast.walk(b.node)):
+            return True
+    return False
+
+
+# A tiny embedded positive example (expected finding count on the real tree is zero): a "normal" 1-entry val/rdy queue
+# with three planted defects.  Every netlist rule must flag its defect on every run, otherwise the evaluator / the
+# specification has lost its teeth and the run is an ANALYSIS-ERROR.
+_PROBE_REL = 'pymtl3/stdlib/stream/c17_embedded_probe_.py'
+_PROBE_SRC = '''
+from pymtl3 import *
+from .ifcs import RecvIfcRTL, SendIfcRTL
+
+class NormalQueue1EntryRTL( Component ):
+  def construct( s, EntryType ):
+    s.recv  = RecvIfcRTL( EntryType )
+    s.send  = SendIfcRTL( EntryType )
+    s.count = OutPort()
+    s.full  = Wire()
+    s.entry = Wire( EntryType )
+    s.count    //= s.full
+    s.send.msg //= s.entry
+    s.send.val //= s.full
+    s.recv.rdy //= lambda: ~s.full | s.send.rdy          # defect 1: pipe behaviour in a normal queue
+    @update_ff
+    def ff_probe():
+      if s.reset:
+        s.full <<= 0
+      else:
+        s.full <<= s.recv.val | (s.full & ~s.send.rdy)   # defect 2: occupancy ignores whether the offer was accepted
+      if s.recv.val:
+        s.entry <<= s.recv.msg                           # defect 3: a stored message is overwritten
+'''
+_PROBE_CACHE = {}
+
+
+def _probe(repo):
     key = id(repo)
+    if key in _PROBE_CACHE and _PROBE_CACHE[key][0] is repo:
+        return _PROBE_CACHE[key][1]
+    prepo = Repo(repo.root, dict(repo.overlay, **{_PROBE_REL: _PROBE_SRC}))
+    fam = FAMILIES['stream']
+    nl = Elaborator(prepo).build(_PROBE_REL, 'NormalQueue1EntryRTL', D)
+    enc = EncOne(nl, 1, True)
+    oc = evaluate(nl, enc, dict(fam.top), fam, 'normal', 1, True, False)
+    _PROBE_CACHE.clear()
+    _PROBE_CACHE[key] = (repo, (oc, nl, enc))
+    return oc, nl, enc
+
+
+def _require_probe(repo, rule, aspects):
+    oc, _, _ = _probe(repo)
+    for a in aspects:
+        if a not in oc.miss:
+            raise AnalysisError(f"{rule}: the embedded positive example (planted defect in `{a}`) was not flagged; "
+                                f"the checker has lost its teeth")
+
+
+NS_WIDE = (5, 6, 7, 8)
+
+
+def analyse_all(repo, wide=False):
+    """elaborate and evaluate every target once per run (shared by the rules).  wide: the n-entry controllers and
+    wrappers with the larger capacities of the thorough tier"""
+    key = (id(repo), wide)
     if key in _CACHE and _CACHE[key][0] is repo:
         return _CACHE[key][1]
     elab = Elaborator(repo)
     out = []
-    for t in _targets():
+    targets = _targets()
+    if wide:
+        targets = [dict(t, ns=NS_WIDE) for t in targets if t['level'] in ('ctrl', 'top') and t['enc'] is not EncChain]
+    for t in targets:
         mod = repo.mod(t['rel'])
         cls = mod.get_class(t['cls'])
         fam = FAMILIES[t['fam']]
         kind = kind_of(t['cls'])
-        has_reset = (t['rel'], t['cls']) not in NO_RESET
         for n in t['ns']:
-            rec = dict(t=t, n=n, mod=mod, cls=cls, kind=kind, fam=fam, has_reset=has_reset, nl=None, oc=None, err=None)
+            rec = dict(t=t, n=n, mod=mod, cls=cls, kind=kind, fam=fam, has_reset=True, nl=None, oc=None, err=None)
             a, kw = t['args'](n)
             try:
                 nl = elab.build(t['rel'], t['cls'], *a, **kw)
                 rec['nl'] = nl
+                # the exemption applies only while the class really has no reset logic
+                has_reset = rec['has_reset'] = (t['rel'], t['cls']) not in NO_RESET or _reads_reset(nl)
                 encc = t['enc'] or (EncOne if n == 1 else EncCount)
                 enc = encc(nl, n, t['level'] != 'ctrl')
-                ports = fam.ctrl if t['level'] == 'ctrl' else fam.top
-                ports = {k: v for k, v in ports.items() if k not in ('enq_xfer', 'deq_xfer')}
+                ports = dict(fam.ctrl if t['level'] == 'ctrl' else fam.top)
                 if t['level'] != 'ctrl' and 'free' in ports and not nl.has(ports['free']):
                     ports.pop('free')
                 if 'count' in ports and not nl.has(ports['count']):
@@ -574,7 +657,8 @@ def analyse_all(repo):
             except ModelFault as ex:
                 rec['err'] = str(ex)
             out.append(rec)
-    _CACHE.clear()
+    for k in [k for k, v in _CACHE.items() if v[0] is not repo]:
+        del _CACHE[k]
     _CACHE[key] = (repo, out)
     return out
 
@@ -633,19 +717,16 @@ def rule_rdy(repo):
                                 "full, deq iff not empty; pipe: enq also when a dequeue happens; bypass: deq also when an "
                                 "enqueue is offered), low under reset where the family gates on reset")
     recs = analyse_all(repo)
-    label = {'enq_rdy': 'enqueue-ready equation', 'deq_avail': 'dequeue-ready/valid equation',
-             'reset_gating': 'outputs under reset'}
+    _require_probe(repo, r.rule, ('enq_rdy',))
+    label = {'enq_rdy': 'enqueue-ready equation', 'deq_avail': 'dequeue-ready/valid equation'}
 
     def cons(rec, a):
         if a == 'enq_rdy':
             return _driver_text(rec, 'enq_rdy')
-        if a == 'deq_avail':
-            return _driver_text(rec, 'deq_avail' if 'deq_avail' in (rec['fam'].top) else 'deq_en')
-        return f"{rec['fam'].name} family gates on reset" if rec['fam'].gates_reset else 'not gated'
-    # reset gating is folded into the two equations (spec says 0 under reset); report it as its own instance for
-    # the family that gates
+        return _driver_text(rec, 'deq_avail' if 'deq_avail' in (rec['fam'].top) else 'deq_en')
+    # reset gating is folded into the two equations: for the family that gates, the specification is 0 under reset
     _report(r, recs, ('enq_rdy', 'deq_avail'), label, cons, lambda rec: rec['t']['level'] in ('ctrl', 'one'))
-    for rel, cls in sorted(NO_RESET):
+    for rel, cls in sorted({(x['t']['rel'], x['t']['cls']) for x in recs if not x['has_reset']}):
         r.observations.append(f"{rel}:{cls}: the full bit is a register without reset; the reset clause is not evaluated")
     notes = sorted({n for rec in recs if rec['nl'] is not None for n in rec['nl'].notes})
     r.observations.extend(notes)
@@ -655,26 +736,33 @@ def rule_rdy(repo):
 
 def rule_count(repo):
     r = RuleResult('R-C17-count', "occupancy / pointer update equations: count' = count + enq_xfer - deq_xfer, reset -> 0, "
-                                  "head/tail advance iff their transfer with wrap at num_entries-1, wen = enq_xfer, "
-                                  "waddr = tail, raddr = head, bypass select = empty; full' of the 1-entry queues")
+                                  "pointers stay consistent (tail = head + count mod n, wrap at num_entries-1); the controller's "
+                                  "wen / waddr / raddr / bypass select deliver the oldest message and store the accepted one "
+                                  "behind the youngest; full' of the 1-entry queues")
     recs = analyse_all(repo)
-    label = {'count_out': 'occupancy output', 'next_count': "occupancy update", 'next_inv': 'representation invariant',
-             'head_next': 'read pointer update', 'tail_next': 'write pointer update', 'wen': 'write enable',
-             'waddr': 'write address', 'raddr': 'read address', 'mux_sel': 'bypass select'}
+    _require_probe(repo, r.rule, ('next_count',))
+    label = {'count_out': 'occupancy output', 'next_count': "occupancy update", 'next_inv': 'pointer consistency after the edge',
+             'deq_msg': 'slot selected for delivery (raddr / bypass select)',
+             'next_contents': 'stored sequence implied by wen / waddr / pointer updates'}
 
     def cons(rec, a):
         nl = rec['nl']
-        if a in ('wen', 'waddr', 'raddr', 'mux_sel') and nl is not None and nl.has('s.' + a):
-            d = nl.driver.get(nl.find(nl.lookup('s.' + a)))
-            return f"s.{a} <- {d.describe() if d else 'undriven'}" if not (d and d.kind == 'ff') else \
-                f"s.{a} = register {nl.net_name(nl.lookup('s.' + a))}"
         if a == 'count_out':
             return _driver_text(rec, 'count' if 'count' in rec['fam'].top else 'free')
+        if a in ('deq_msg', 'next_contents') and nl is not None:
+            def drv(k):
+                if not nl.has('s.' + k):
+                    return None
+                d = nl.driver.get(nl.find(nl.lookup('s.' + k)))
+                return f"s.{k} <- {('register ' + nl.net_name(nl.lookup('s.' + k))) if d and d.kind == 'ff' else (d.describe() if d else 'undriven')}"
+            keys = ('raddr', 'mux_sel') if a == 'deq_msg' else ('wen', 'waddr')
+            return '; '.join(x for x in map(drv, keys) if x)
         regs = ', '.join(sorted({b.name for b in nl.blocks if b.kind == 'ff'})) if nl is not None else ''
         return f"update_ff {regs}"
-    _report(r, recs, ('count_out', 'next_count', 'next_inv', 'head_next', 'tail_next', 'wen', 'waddr', 'raddr', 'mux_sel'),
-            label, cons, lambda rec: rec['t']['level'] in ('ctrl', 'one'))
-    r.require_floor(80)
+    _report(r, recs, ('count_out', 'next_count', 'next_inv', 'deq_msg', 'next_contents'), label, cons,
+            lambda rec: rec['t']['level'] == 'ctrl')
+    _report(r, recs, ('count_out', 'next_count', 'next_inv'), label, cons, lambda rec: rec['t']['level'] == 'one')
+    r.require_floor(60)
     return r
 
 
@@ -683,6 +771,7 @@ def rule_step(repo):
                                  "(bypass: the offered one when empty), stored sequence after the edge = old + accepted - "
                                  "delivered, representation invariant preserved (decides wrapper / data-path wiring)")
     recs = analyse_all(repo)
+    _require_probe(repo, r.rule, ('next_contents', 'enq_rdy', 'next_count'))
     label = {'enq_rdy': 'enqueue-ready at the interface', 'deq_avail': 'dequeue-ready/valid at the interface',
              'count_out': 'occupancy output', 'deq_msg': 'delivered message', 'next_inv': 'representation invariant',
              'next_count': 'occupancy after the edge', 'next_contents': 'stored messages after the edge'}
@@ -708,99 +797,77 @@ def _majority(table):
     return best[0][0], sorted(k for k, v in table.items() if v != best[0][0])
 
 
+def _relation(nl, enc, ports, fam, n, r):
+    """canonical transition relation {(n, occupancy, enq_xfer, deq_xfer, occupancy')} of a queue / controller over the
+    offers that are legal for this implementation (reset low); transfers are derived from the implementation's own
+    ready / valid outputs, so no hand-written specification is involved"""
+    sig = {k: nl.lookup(p) for k, p in ports.items() if k in ('offer', 'enq_rdy', 'deq_in', 'deq_avail', 'deq_en', 'enq_msg')}
+    rel = set()
+    for st in enc.states():
+        for offer, deq_in in itertools.product((0, 1), repeat=2):
+            inputs = {sig['offer']: BV(offer, 1), sig['deq_in']: BV(deq_in, 1)}
+            if 'enq_msg' in sig:
+                inputs[sig['enq_msg']] = NEW
+            sim = Sim(nl, st.regs, inputs, 0)
+            r.evaluations += 1
+            try:
+                er = _v(sim.read(sig['enq_rdy']))
+                if fam.enq_style == 'en' and offer and not er:
+                    continue        # illegal offer for this implementation
+                ex = offer if fam.enq_style == 'en' else (offer & er)
+                if fam.deq_style == 'drive':
+                    dx = _v(sim.read(sig['deq_en']))
+                else:
+                    av = _v(sim.read(sig['deq_avail']))
+                    if fam.deq_style == 'callee' and deq_in and not av:
+                        continue
+                    dx = deq_in if fam.deq_style == 'callee' else (deq_in & av)
+                a = enc.alpha(sim.step(), [None] * n)
+                rel.add((n, st.count, ex, dx, a if isinstance(a, str) else a[0]))
+            except ModelFault as e:
+                rel.add((n, st.count, 'fault', str(e)))
+    return frozenset(rel)
+
+
 def rule_siblings(repo):
-    r = RuleResult('R-C17-siblings', "the sibling copies agree with each other: the n-entry up_reg blocks as functions of "
-                                     "(state, reset, enq_xfer, deq_xfer), the 1-entry queues of one kind across the interface "
-                                     "families as canonical transition relations (full, enq_xfer, deq_xfer) -> full'")
+    r = RuleResult('R-C17-siblings', "the sibling copies agree with each other: queues / controllers of one kind compared "
+                                     "across the interface families as canonical transition relations (capacity, occupancy, "
+                                     "enq_xfer, deq_xfer) -> occupancy', transfers taken from each copy's own ready/valid")
     recs = analyse_all(repo)
-    # (1) n-entry controllers with the count-register encoding
-    ctrls = [x for x in recs if x['t']['level'] == 'ctrl' and x['t']['enc'] is EncCount]
-    tables = {}
-    for x in ctrls:
-        name = (x['t']['rel'], x['t']['cls'])
-        if x['err'] or x['nl'] is None:
-            r.bad(x['mod'], x['t']['cls'], 'elaboration', f"n={x['n']}: {x['err']}", x['cls'].lineno)
-            continue
-        nl, enc, n = x['nl'], x['enc'], x['n']
-        ports = x['fam'].ctrl
-        ex_s, dx_s = nl.lookup(ports['enq_xfer']), nl.lookup(ports['deq_xfer'])
-        for st in enc.states():
-            for reset, ex, dx in itertools.product((0, 1), repeat=3):
-                sim = Sim(nl, st.regs, {}, reset)
-                sim.val[nl.find(ex_s)] = BV(ex, 1)
-                sim.val[nl.find(dx_s)] = BV(dx, 1)
-                try:
-                    nxt = sim.step()
-                    val = (nxt[enc.head].v, nxt[enc.tail].v, nxt[enc.count].v)
-                except ModelFault as e:
-                    val = ('fault', str(e))
-                r.evaluations += 1
-                tables.setdefault((n, st.head, st.count, reset, ex, dx), {})[name] = val
-    deviating = {}
-    for key, tab in sorted(tables.items()):
-        maj, odd = _majority(tab)
-        for name in odd:
-            deviating.setdefault(name, (key, tab[name], maj))
-    for x in {(x['t']['rel'], x['t']['cls']): x for x in ctrls if not x['err']}.values():
-        name = (x['t']['rel'], x['t']['cls'])
-        blk = ', '.join(sorted({b.name for b in x['nl'].blocks if b.kind == 'ff'}))
-        cons = f"update_ff {blk} as a function of (head, tail, count, reset, enq_xfer, deq_xfer)"
-        if name in deviating:
-            (n, h, c, reset, ex, dx), got, maj = deviating[name]
-            r.bad(x['mod'], x['t']['cls'], cons,
-                  f"n={n} head={h} count={c} reset={reset} enq_xfer={ex} deq_xfer={dx}: (head', tail', count') = {got}, "
-                  f"the sibling controllers compute {maj if maj is not None else 'different values (no majority)'}",
-                  x['cls'].lineno)
-        else:
-            r.ok(x['mod'], x['t']['cls'], cons, note=f"agrees with {len(ctrls) // len(NS_CTRL) - 1} siblings")
-    # (2) 1-entry queues of one kind across the families
-    for kind in KINDS:
-        rel_tab = {}
-        ones = [x for x in recs if x['t']['level'] == 'one' and x['kind'] == kind.lower()]
-        for x in ones:
-            name = (x['t']['rel'], x['t']['cls'])
-            if x['err'] or x['nl'] is None:
-                r.bad(x['mod'], x['t']['cls'], 'elaboration', str(x['err']), x['cls'].lineno)
-                continue
-            nl, enc, fam = x['nl'], x['enc'], x['fam']
-            sig = {k: nl.lookup(p) for k, p in fam.top.items() if k in ('offer', 'enq_rdy', 'deq_in', 'deq_avail', 'deq_en',
-                                                                     'enq_msg')}
-            rel = set()
-            for st in enc.states():
-                for offer, deq_in in itertools.product((0, 1), repeat=2):
-                    inputs = {sig['offer']: BV(offer, 1), sig['deq_in']: BV(deq_in, 1), sig['enq_msg']: NEW}
-                    sim = Sim(nl, st.regs, inputs, 0)
-                    r.evaluations += 1
-                    try:
-                        er = _v(sim.read(sig['enq_rdy']))
-                        if fam.enq_style == 'en' and offer and not er:
-                            continue        # illegal offer for this implementation
-                        ex = offer if fam.enq_style == 'en' else (offer & er)
-                        if fam.deq_style == 'drive':
-                            dx = _v(sim.read(sig['deq_en']))
-                        else:
-                            av = _v(sim.read(sig['deq_avail']))
-                            if fam.deq_style == 'callee' and deq_in and not av:
-                                continue
-                            dx = deq_in if fam.deq_style == 'callee' else (deq_in & av)
-                        f2 = sim.step()[enc.full].v
-                        rel.add((st.count, ex, dx, f2))
-                    except ModelFault as e:
-                        rel.add(('fault', str(e)))
-            rel_tab[name] = frozenset(rel)
-        maj, odd = _majority(rel_tab)
-        for x in ones:
-            name = (x['t']['rel'], x['t']['cls'])
-            if name not in rel_tab:
-                continue
-            cons = f"{kind.lower()} 1-entry transition relation (full, enq_xfer, deq_xfer, full')"
-            if name in odd:
-                diff = sorted(rel_tab[name] ^ maj, key=str) if maj is not None else sorted(rel_tab[name], key=str)
-                r.bad(x['mod'], x['t']['cls'], cons,
-                      f"transition relation differs from the sibling {kind.lower()} queues of the other interface families "
-                      f"in the tuples {diff[:4]}", x['cls'].lineno)
-            else:
-                r.ok(x['mod'], x['t']['cls'], cons, note=f"{len(rel_tab[name])} transitions, {len(rel_tab)} families")
+    for level, what in (('ctrl', 'n-entry controller'), ('one', '1-entry queue')):
+        for kind in KINDS:
+            group = [x for x in recs if x['t']['level'] == level and x['kind'] == kind.lower()]
+            rel_tab, by_name = {}, {}
+            for x in group:
+                name = (x['t']['rel'], x['t']['cls'])
+                by_name[name] = x
+                if x['err'] or x['nl'] is None:
+                    rel_tab[name] = frozenset([('elaboration', str(x['err']))])
+                    continue
+                ports = x['fam'].ctrl if level == 'ctrl' else x['fam'].top
+                rel_tab[name] = rel_tab.get(name, frozenset()) | _relation(x['nl'], x['enc'], ports, x['fam'], x['n'], r)
+            if len(rel_tab) < 2:
+                raise AnalysisError(f"R-C17-siblings: fewer than two {kind.lower()} {what} copies found")
+            if level == 'one' and kind == 'Normal':
+                # embedded positive example: the planted-defect queue must be singled out by the comparison
+                _, pnl, penc = _probe(repo)
+                ptab = dict(rel_tab)
+                ptab[('<probe>', 'probe')] = _relation(pnl, penc, FAMILIES['stream'].top, FAMILIES['stream'], 1, r)
+                if ('<probe>', 'probe') not in _majority(ptab)[1]:
+                    raise AnalysisError("R-C17-siblings: the embedded positive example was not singled out")
+            maj, odd = _majority(rel_tab)
+            for name, x in by_name.items():
+                cons = f"{kind.lower()} {what}: transition relation (n, occupancy, enq_xfer, deq_xfer, occupancy')"
+                if name in odd:
+                    others = [v for k, v in rel_tab.items() if k != name]
+                    ref = maj if maj is not None else others[0]
+                    diff = sorted(rel_tab[name] ^ ref, key=str)
+                    r.bad(x['mod'], x['t']['cls'], cons,
+                          f"differs from the {kind.lower()} {what} copies of the other interface families "
+                          f"({', '.join(sorted(k[0].split('/')[-2] + '/' + k[1] for k in rel_tab if k != name))}) in the "
+                          f"transitions {diff[:4]}", x['cls'].lineno)
+                else:
+                    r.ok(x['mod'], x['t']['cls'], cons, note=f"{len(rel_tab[name])} transitions, {len(rel_tab)} copies")
     r.require_floor(16)
     return r
 
@@ -814,9 +881,6 @@ CL_REQUIRED = {
     'bypass': {('M:enq', 'M:deq'), ('M:enq', 'M:peek')},
     'normal': {('U:pulse', 'M:enq.rdy'), ('U:pulse', 'M:deq.rdy'), ('M:peek', 'M:deq.rdy'), ('M:peek', 'M:enq.rdy')},
 }
-CL_GUARD_SPEC = {'enq': ('len < maxlen', lambda L, M: L < M), 'deq': ('len > 0', lambda L, M: L > 0),
-                 'peek': ('len > 0', lambda L, M: L > 0)}
-
 
 def _cl_guard(func):
     """the guard expression of a @non_blocking( lambda s: ... ) method: (param name, body)"""
@@ -842,14 +906,61 @@ def _cl_term(e, selfname, pulse_name):
     raise AnalysisError(f"constraint term outside the model: {norm(e)}")
 
 
+_CL_PROBE_SRC = '''
+from collections import deque
+from pymtl3 import *
+
+class PipeQueueCL( Component ):
+  def construct( s, num_entries=1 ):
+    s.queue = deque( maxlen=num_entries )
+    s.add_constraints(
+      M( s.peek ) < M( s.enq ),
+      M( s.enq  ) < M( s.deq ),       # planted: bypass ordering in a pipe queue
+    )
+  @non_blocking( lambda s: len( s.queue ) <= s.queue.maxlen )   # planted: accepts when full
+  def enq( s, msg ):
+    s.queue.appendleft( msg )
+  @non_blocking( lambda s: len( s.queue ) > 0 )
+  def deq( s ):
+    return s.queue.popleft()          # planted: last in, first out
+  @non_blocking( lambda s: len( s.queue ) > 0 )
+  def peek( s ):
+    return s.queue[-1]
+'''
+
+
 def rule_cl(repo):
-    r = RuleResult('R-C17-cl', "cycle-level queues: enq guard len < maxlen, deq/peek guard len > 0 (evaluated over small "
-                               "integers), enq and deq on opposite ends of the deque, peek on the deq end, capacity = "
-                               "num_entries, method-order constraints of the kind")
-    m = repo.mod(CLQ)
-    for cname in ('PipeQueueCL', 'BypassQueueCL', 'NormalQueueCL'):
+    r = RuleResult('R-C17-cl', "cycle-level queues: enq / deq guards equal the kind's ready values in every enq/deq order the "
+                               "method constraints allow (two-phase evaluation over small integers, rdy pulses from the "
+                               "start-of-cycle state), peek guard len > 0, enq and deq on opposite ends of the deque, peek on the "
+                               "deq end, capacity = num_entries, method-order constraints of the kind")
+    # embedded positive example: three planted defects must be flagged on every run
+    probe = RuleResult('probe', '')
+    _cl_check(probe, Module(repo, 'c17_embedded_cl_probe_.py', _CL_PROBE_SRC), ('PipeQueueCL',))
+    got = {f.func + '|' + f.construct.split(':')[0].split(' ')[0] for f in probe.findings}
+    for want in ('PipeQueueCL.enq|guard', 'PipeQueueCL.deq|enq', 'PipeQueueCL.construct|constraint'):
+        if want not in got:
+            raise AnalysisError(f"R-C17-cl: the embedded positive example ({want}) was not flagged (got {sorted(got)})")
+    _cl_check(r, repo.mod(CLQ), ('PipeQueueCL', 'BypassQueueCL', 'NormalQueueCL'))
+    r.require_floor(20)
+    return r
+
+
+def _cl_spec(kind, L0, M, enq_offered, deq_offered):
+    """ready values a CL queue of the kind must show in a cycle that starts with L0 of M entries occupied"""
+    if kind == 'normal':
+        return L0 < M, L0 > 0
+    if kind == 'pipe':
+        av = L0 > 0
+        return (L0 < M or (deq_offered and av)), av
+    er = L0 < M
+    return er, (L0 > 0 or (enq_offered and er))
+
+
+def _cl_check(r, m, classes):
+    for cname in classes:
         kind = kind_of(cname)
-        cls = m.get_class(cname)
+        m.get_class(cname)
         meths = m.methods(cname)
         for need in ('construct', 'enq', 'deq', 'peek'):
             if need not in meths:
@@ -857,7 +968,7 @@ def rule_cl(repo):
         con = meths['construct']
         me = con.args.args[0].arg
         # -- capacity
-        qattr, cap = None, None
+        qattr, cap, capst = None, None, None
         for st in walk_no_nested(con):
             if isinstance(st, ast.Assign) and isinstance(st.value, ast.Call) and norm(st.value.func) in ('deque', 'collections.deque'):
                 for t in st.targets:
@@ -885,7 +996,7 @@ def rule_cl(repo):
             else:
                 r.bad(m, f"{cname}.construct", f"capacity: {norm(capst)}",
                       f"the deque capacity `{norm(cap)}` is not the num_entries parameter", capst.lineno)
-        # -- rdy pulses of the normal queue (plain assignments inside an @update block of construct)
+        # -- rdy pulses (plain assignments to attributes inside an @update block of construct)
         pulses, pulse_name = {}, None
         for fn in con.body:
             if isinstance(fn, ast.FunctionDef) and [norm(d) for d in fn.decorator_list] == ['update']:
@@ -896,39 +1007,98 @@ def rule_cl(repo):
                         pulse_name = fn.name
                     elif not (isinstance(st, ast.Expr) and isinstance(st.value, ast.Constant)):
                         raise AnalysisError(f"{cname}.construct.{fn.name}: statement outside the model: {norm(st)[:60]}")
-        # -- guards
-        for meth, (txt, spec) in CL_GUARD_SPEC.items():
-            f = meths[meth]
-            g = _cl_guard(f)
+        # -- method-order constraints
+        pairs = set()
+        calls = [n for n in walk_no_nested(con) if isinstance(n, ast.Call) and isinstance(n.func, ast.Attribute)
+                 and n.func.attr == 'add_constraints' and norm(n.func.value) == me]
+        for c in calls:
+            for a in c.args:
+                if not (isinstance(a, ast.Compare) and len(a.ops) == 1 and isinstance(a.ops[0], (ast.Lt, ast.Gt))):
+                    raise AnalysisError(f"{cname}: constraint outside the model: {norm(a)}")
+                x, y = _cl_term(a.left, me, pulse_name), _cl_term(a.comparators[0], me, pulse_name)
+                pairs.add((x, y) if isinstance(a.ops[0], ast.Lt) else (y, x))
+        for before, after in sorted(CL_REQUIRED[kind]):
+            cons = f"constraint {before} < {after}"
+            if (after, before) in pairs:
+                r.bad(m, f"{cname}.construct", cons, f"the constraint is reversed ({after} before {before}): a {kind} queue "
+                      f"needs {before} to run before {after} within a cycle", con.lineno)
+            elif (before, after) not in pairs:
+                r.bad(m, f"{cname}.construct", cons, f"missing: without it the scheduler may run {after} before {before} and "
+                      f"the queue does not show {kind} same-cycle behaviour", con.lineno)
+            else:
+                r.ok(m, f"{cname}.construct", cons)
+        for a, b in sorted(pairs):
+            if (b, a) in pairs and a < b:
+                r.bad(m, f"{cname}.construct", f"constraints {a} < {b} and {b} < {a}", "contradictory constraints", con.lineno)
+        # -- guards: two-phase evaluation.  A cycle starts with L0 of M entries; the pulses (if any) are computed from
+        # that state; enq and deq run in every order the constraints allow; the method that runs first changes the live
+        # length seen by the guard of the second.  Each guard must equal the ready value of the kind.
+        guards = {}
+        for meth in ('enq', 'deq', 'peek'):
+            g = _cl_guard(meths[meth])
             if g is None:
                 r.bad(m, f"{cname}.{meth}", 'guard', f"{meth} has no @non_blocking guard: it can be called on a "
-                      f"{'full' if meth == 'enq' else 'empty'} queue", f.lineno)
-                continue
-            pname, body = g
+                      f"{'full' if meth == 'enq' else 'empty'} queue", meths[meth].lineno)
+            guards[meth] = g
+        funcs = {'len': lambda o: o.fields['_len'] if isinstance(o, Obj) and o.tag == 'deque' else
+                 (_ for _ in ()).throw(AnalysisError('len() of a non-deque'))}
+
+        def ev_at(expr, pname, L, M, pvals):
+            selfobj = Obj('queue', **{qattr: Obj('deque', maxlen=M, _len=L)})
+            selfobj.fields.update(pvals)
+            r.evaluations += 1
+            try:
+                return bool(Evaluator({pname: selfobj}, arith=True, funcs=funcs).ev(expr))
+            except Raised as ex:
+                raise AnalysisError(f"{cname}: guard / pulse reads an unknown attribute ({ex.what})")
+        orders = []
+        if ('M:enq', 'M:deq') not in pairs:
+            orders.append(('deq', 'enq'))
+        if ('M:deq', 'M:enq') not in pairs:
+            orders.append(('enq', 'deq'))
+        firstbad = {}
+        if guards['enq'] and guards['deq']:
+            for M in (1, 2, 3):
+                for L0 in range(M + 1):
+                    pvals = {a: ev_at(e, me, L0, M, {}) for a, e in pulses.items()}
+                    for first, second in orders:
+                        for off_e, off_d in itertools.product((False, True), repeat=2):
+                            offered = {'enq': off_e, 'deq': off_d}
+                            er, av = _cl_spec(kind, L0, M, off_e, off_d)
+                            want = {'enq': er, 'deq': av}
+                            g1 = ev_at(guards[first][1], guards[first][0], L0, M, pvals)
+                            fired = offered[first] and g1
+                            L1 = L0 + ((1 if first == 'enq' else -1) if fired else 0)
+                            if not 0 <= L1 <= M:
+                                L1 = L0      # a wrongly enabled first method is reported through its own guard
+                            g2 = ev_at(guards[second][1], guards[second][0], L1, M, pvals)
+                            for meth, got, live in ((first, g1, L0), (second, g2, L1)):
+                                if got != want[meth] and meth not in firstbad:
+                                    firstbad[meth] = (
+                                        f"cycle starting with {L0} of {M} entries, schedule {first} before {second}, "
+                                        f"{'enq offered' if off_e else 'no enq'}, {'deq offered' if off_d else 'no deq'}"
+                                        f"{', ' + first + ' happened' if fired and meth == second else ''}: the {meth} guard is "
+                                        f"{got} (live length {live}); a {kind} queue must be "
+                                        f"{'ready' if want[meth] else 'not ready'} here")
+            for meth in ('enq', 'deq'):
+                body = guards[meth][1]
+                uses = [k for k in sorted(pulses) if any(isinstance(n, ast.Attribute) and n.attr == k for n in ast.walk(body))]
+                cons = f"guard {norm(body)}" + (f" with {', '.join(f'{k} = {norm(pulses[k])}' for k in uses)}" if uses else '')
+                if meth in firstbad:
+                    r.bad(m, f"{cname}.{meth}", cons, firstbad[meth], meths[meth].lineno)
+                else:
+                    r.ok(m, f"{cname}.{meth}", cons, note=f"orders {orders}")
+        if guards['peek']:
+            pname, body = guards['peek']
             bad = None
             for M in (1, 2, 3):
-                for L in range(M + 1):
-                    q = Obj('deque', maxlen=M, _len=L)
-                    selfobj = Obj('queue', **{qattr: q})
-                    funcs = {'len': lambda o: o.fields['_len'] if isinstance(o, Obj) and o.tag == 'deque' else
-                             (_ for _ in ()).throw(AnalysisError('len() of a non-deque'))}
-                    try:
-                        for pa, pe in pulses.items():
-                            selfobj.fields[pa] = bool(Evaluator({me: selfobj}, arith=True, funcs=funcs).ev(pe))
-                        r.evaluations += 1
-                        got = bool(Evaluator({pname: selfobj}, arith=True, funcs=funcs).ev(body))
-                    except Raised as ex:
-                        raise AnalysisError(f"{cname}.{meth}: guard reads an unknown attribute ({ex.what})")
-                    if got != spec(L, M) and bad is None:
-                        bad = (L, M, got)
-            cons = f"guard {norm(body)}" + (f" with {', '.join(f'{k} = {norm(v)}' for k, v in sorted(pulses.items()))}"
-                                            if any(isinstance(n, ast.Attribute) and n.attr in pulses for n in ast.walk(body)) else '')
-            if bad:
-                L, M, got = bad
-                r.bad(m, f"{cname}.{meth}", cons, f"with {L} of {M} entries occupied the guard is {got}; {meth} must be "
-                      f"ready iff {txt}", f.lineno)
-            else:
-                r.ok(m, f"{cname}.{meth}", cons)
+                for L0 in range(M + 1):
+                    pvals = {a: ev_at(e, me, L0, M, {}) for a, e in pulses.items()}
+                    got = ev_at(body, pname, L0, M, pvals)
+                    if got != (L0 > 0) and bad is None:
+                        bad = f"with {L0} of {M} entries occupied the peek guard is {got}; peek must be ready iff len > 0"
+            (r.bad(m, f"{cname}.peek", f"guard {norm(body)}", bad, meths['peek'].lineno) if bad
+             else r.ok(m, f"{cname}.peek", f"guard {norm(body)}"))
         # -- FIFO ends: abstract execution of the three bodies on a two-element deque
         def q_of(e, f):
             return isinstance(e, ast.Attribute) and e.attr == qattr and norm(e.value) == f.args.args[0].arg
@@ -971,39 +1141,24 @@ def rule_cl(repo):
                   meths['peek'].lineno)
         else:
             r.ok(m, cname, cons)
-        # -- method-order constraints
-        pairs = set()
-        calls = [n for n in walk_no_nested(con) if isinstance(n, ast.Call) and isinstance(n.func, ast.Attribute)
-                 and n.func.attr == 'add_constraints' and norm(n.func.value) == me]
-        for c in calls:
-            for a in c.args:
-                if not (isinstance(a, ast.Compare) and len(a.ops) == 1 and isinstance(a.ops[0], (ast.Lt, ast.Gt))):
-                    raise AnalysisError(f"{cname}: constraint outside the model: {norm(a)}")
-                x, y = _cl_term(a.left, me, pulse_name), _cl_term(a.comparators[0], me, pulse_name)
-                pairs.add((x, y) if isinstance(a.ops[0], ast.Lt) else (y, x))
-        for before, after in sorted(CL_REQUIRED[kind]):
-            cons = f"constraint {before} < {after}"
-            if (after, before) in pairs:
-                r.bad(m, f"{cname}.construct", cons, f"the constraint is reversed ({after} before {before}): a {kind} queue "
-                      f"needs {before} to run before {after} within a cycle", con.lineno)
-            elif (before, after) not in pairs:
-                r.bad(m, f"{cname}.construct", cons, f"missing: without it the scheduler may run {after} before {before} and "
-                      f"the queue does not show {kind} same-cycle behaviour", con.lineno)
-            else:
-                r.ok(m, f"{cname}.construct", cons)
-        for a, b in sorted(pairs):
-            if (b, a) in pairs and a < b:
-                r.bad(m, f"{cname}.construct", f"constraints {a} < {b} and {b} < {a}", "contradictory constraints", con.lineno)
-        # the opposite-kind constraint must not be present (a pipe queue must not also let enq run before deq)
-        forbidden = {'pipe': ('M:enq', 'M:deq'), 'bypass': ('M:deq', 'M:enq')}.get(kind)
-        if forbidden and forbidden in pairs and (forbidden[1], forbidden[0]) not in pairs:
-            r.bad(m, f"{cname}.construct", f"constraint {forbidden[0]} < {forbidden[1]}",
-                  f"this ordering gives the queue the same-cycle behaviour of the other kind, not of a {kind} queue", con.lineno)
-    r.require_floor(22)
+
+
+def rule_wide(repo):
+    """thorough tier: the same equations for the larger capacities 5..8 (controllers and complete n-entry queues)"""
+    r = RuleResult('R-C17-wide', "thorough tier: ready/valid, occupancy / pointer updates, delivered message and stored "
+                                 "sequence for capacities 5..8 (n-entry controllers and complete queues)")
+    recs = analyse_all(repo, wide=True)
+    label = {'enq_rdy': 'enqueue-ready', 'deq_avail': 'dequeue-ready/valid', 'count_out': 'occupancy output',
+             'deq_msg': 'delivered message', 'next_inv': 'representation invariant', 'next_count': 'occupancy after the edge',
+             'next_contents': 'stored messages after the edge'}
+    _report(r, recs, tuple(label), label, lambda rec, a: f"{rec['fam'].name} interface, capacities {list(NS_WIDE)}",
+            lambda rec: True)
+    r.require_floor(88)
     return r
 
 
 RULES = [rule_rdy, rule_count, rule_step, rule_siblings, rule_cl]
+THOROUGH_RULES = [rule_wide]
 
 # ---------------------------------------------------------------------------
 # self-test of the checker (thorough tier)
@@ -1036,6 +1191,8 @@ MUTANTS = [
        'R-C17-count', 'first'),
     _m('q-bypass-mux-sel-polarity', Q, "s.mux_sel //= lambda: s.count == CountType(0)",
        "s.mux_sel //= lambda: s.count != CountType(0)", 'R-C17-count'),
+    _m('q-normal-enq-rdy-msb-test', Q, "s.enq_rdy //= lambda: ~s.reset & ( s.count < s.num_entries )",
+       "s.enq_rdy //= lambda: ~s.reset & ~s.count[ count_nbits-1 ]", 'R-C17-rdy', 'first'),     # only wrong for non powers of two
     # -- queues.py: 1-entry queues
     _m('q-normal1-full-ignores-deq', Q, "s.full <<= ~s.reset & ( ~s.deq.en & (s.enq.en | s.full) )",
        "s.full <<= ~s.reset & ( s.enq.en | s.full )", 'R-C17-count', 'first'),
@@ -1078,6 +1235,17 @@ MUTANTS = [
     _m('st-bypass1-full-loses', ST, "s.full <<= ~s.send.rdy & (s.full | s.recv.val)", "s.full <<= ~s.send.rdy & s.recv.val",
        'R-C17-count'),
     _m('st-bypass-dpath-no-bypass', ST, "m.in_[1] //= s.recv_msg", "m.in_[1] //= s.rf.rdata[0]", 'R-C17-step'),
+    dict(name='st-bypass-skip-write-pointers-drift', rule='R-C17-count', edits=[
+        dict(file=ST, old="    s.wen   //= s.recv_xfer\n    s.waddr //= s.tail\n    s.raddr //= s.head\n\n    s.recv_rdy //= lambda: s.count < num_entries\n"
+                          "    s.send_val //= lambda: (s.count > 0) | s.recv_val",
+             new="    s.wen //= lambda: s.recv_xfer & ~( s.mux_sel & s.send_xfer )\n    s.waddr //= s.tail\n    s.raddr //= s.head\n\n"
+                 "    s.recv_rdy //= lambda: s.count < num_entries\n    s.send_val //= lambda: (s.count > 0) | s.recv_val", count=1),
+        dict(file=ST, old="        if s.recv_xfer:\n          s.tail <<= s.tail + 1 if ( s.tail < num_entries - 1 ) else 0\n\n"
+                          "        if s.send_xfer:\n          s.head <<= s.head + 1 if ( s.head < num_entries -1 ) else 0\n\n"
+                          "        if s.recv_xfer & ~s.send_xfer:\n          s.count <<= s.count + 1\n        if ~s.recv_xfer",
+             new="        if s.wen:\n          s.tail <<= s.tail + 1 if ( s.tail < num_entries - 1 ) else 0\n\n"
+                 "        if s.send_xfer:\n          s.head <<= s.head + 1 if ( s.head < num_entries -1 ) else 0\n\n"
+                 "        if s.recv_xfer & ~s.send_xfer:\n          s.count <<= s.count + 1\n        if ~s.recv_xfer", count=1)]),
     _m('st-reset-sets-full', ST, "      if s.reset:\n        s.full <<= 0", "      if s.reset:\n        s.full <<= 1", 'R-C17-count', 'first'),
     # -- stdlib/queues/enrdy_queues.py
     _m('en-pipe1-enq-rdy-no-deq', EN, "s.enq.rdy @= ~s.full.out | s.deq.rdy", "s.enq.rdy @= ~s.full.out", 'R-C17-rdy'),
@@ -1121,6 +1289,15 @@ MUTANTS = [
     _m('cl-normal-pulse-ge', CLQ, "s.deq_rdy = len( s.queue ) > 0", "s.deq_rdy = len( s.queue ) >= 0", 'R-C17-cl'),
     _m('cl-normal-pulse-constraint-reversed', CLQ, "U( up_pulse ) < M( s.enq.rdy ),", "U( up_pulse ) > M( s.enq.rdy ),", 'R-C17-cl'),
     _m('cl-capacity-plus-one', CLQ, "deque( maxlen=num_entries )", "deque( maxlen=num_entries+1 )", 'R-C17-cl', 'first'),
+    _m('cl-normal-deq-live-guard', CLQ, "@non_blocking( lambda s: s.deq_rdy )", "@non_blocking( lambda s: len( s.queue ) > 0 )",
+       'R-C17-cl'),      # bypass behaviour when the producer is scheduled first
+    dict(name='cl-pipe-enq-pulsed-guard', rule='R-C17-cl', edits=[      # a pipe queue whose enq.rdy is a start-of-cycle pulse
+        dict(file=CLQ, old="    s.queue = deque( maxlen=num_entries )\n\n    s.add_constraints(\n      M( s.peek   ) < M( s.enq  ),",
+             new="    s.queue = deque( maxlen=num_entries )\n    s.enq_rdy = False\n\n    @update\n    def up_pulse():\n"
+                 "      s.enq_rdy = len( s.queue ) < s.queue.maxlen\n\n    s.add_constraints(\n      U( up_pulse ) < M( s.enq.rdy ),\n"
+                 "      M( s.peek   ) < M( s.enq  ),", count=1),
+        dict(file=CLQ, old="@non_blocking( lambda s: len( s.queue ) < s.queue.maxlen )", new="@non_blocking( lambda s: s.enq_rdy )",
+             count='first')]),
     _m('cl-normal-enq-uses-deq-pulse', CLQ, "@non_blocking( lambda s: s.enq_rdy )", "@non_blocking( lambda s: s.deq_rdy )", 'R-C17-cl'),
 ]
 
@@ -1161,6 +1338,17 @@ EQUIV = [
        "s.full.in_ @= s.enq.en | (~s.deq.rdy & s.full.out)"),
     _m('en-bypass1-reordered', EN, "s.deq.en    @= (s.enq.en | s.full.out) & s.deq.rdy", "s.deq.en    @= s.deq.rdy & (s.full.out | s.enq.en)"),
     _m('vr-not-full-as-compare', VR, "s.enq_rdy @= ~s.full\n      s.deq_val", "s.enq_rdy @= s.full == 0\n      s.deq_val"),
+    dict(name='st-bypass-skip-write-both-pointers-held', edits=[
+        dict(file=ST, old="    s.wen   //= s.recv_xfer\n    s.waddr //= s.tail\n    s.raddr //= s.head\n\n    s.recv_rdy //= lambda: s.count < num_entries\n"
+                          "    s.send_val //= lambda: (s.count > 0) | s.recv_val",
+             new="    s.wen //= lambda: s.recv_xfer & ~( s.mux_sel & s.send_xfer )\n    s.waddr //= s.tail\n    s.raddr //= s.head\n\n"
+                 "    s.recv_rdy //= lambda: s.count < num_entries\n    s.send_val //= lambda: (s.count > 0) | s.recv_val", count=1),
+        dict(file=ST, old="        if s.recv_xfer:\n          s.tail <<= s.tail + 1 if ( s.tail < num_entries - 1 ) else 0\n\n"
+                          "        if s.send_xfer:\n          s.head <<= s.head + 1 if ( s.head < num_entries -1 ) else 0\n\n"
+                          "        if s.recv_xfer & ~s.send_xfer:\n          s.count <<= s.count + 1\n        if ~s.recv_xfer",
+             new="        if s.wen:\n          s.tail <<= s.tail + 1 if ( s.tail < num_entries - 1 ) else 0\n\n"
+                 "        if s.send_xfer & ~s.mux_sel:\n          s.head <<= s.head + 1 if ( s.head < num_entries -1 ) else 0\n\n"
+                 "        if s.recv_xfer & ~s.send_xfer:\n          s.count <<= s.count + 1\n        if ~s.recv_xfer", count=1)]),
     _m('cl-guard-ge-1', CLQ, "@non_blocking( lambda s: len( s.queue ) > 0 )\n  def deq", "@non_blocking( lambda s: len( s.queue ) >= 1 )\n  def deq",
        None, 'first'),
     _m('cl-constraint-as-gt', CLQ, "M( s.deq    ) < M( s.enq  )", "M( s.enq  ) > M( s.deq    )"),
@@ -1176,13 +1364,14 @@ LEVEL_TEXT = ("Static analysis of the queue sources: every RTL queue / controlle
               "abstract state (reset x every representation-consistent register valuation for capacities 1..4 x every "
               "protocol-legal offer, messages as opaque tokens) and compared with the FIFO specification of the queue kind: "
               "ready/valid equations, occupancy and pointer updates, delivered message and stored sequence after the edge "
-              "(which also decides the wrapper / data-path wiring); the cycle-level queues are decided structurally (guards over "
-              "small integers, deque ends, method-order constraints); sibling copies are compared with each other. It covers all "
+              "(which also decides the wrapper / data-path / register-file wiring); the cycle-level queues are decided from their "
+              "guards (two-phase evaluation over small integers in every enq/deq order the extracted method constraints allow), "
+              "deque ends and method-order constraints; sibling copies are compared with each other. It covers all "
               "boundary cases (full/empty, simultaneous enq/deq, non-power-of-two wrap, reset) of the one-step relation, which the "
               "example-based tests do not; it does not execute pymtl3 and does not decide FIFO order over arbitrary histories "
               "or capacities.")
 LEVEL_NOTE = ("Trusted: Bits semantics (C04), schedule independence of combinational blocks (C02), flip-flop semantics (C07), data "
-              "independence of the data path, small-scope hypothesis n <= 4, environments obey en => rdy. Not decided: histories, "
+              "independence of the data path, small-scope hypothesis n <= 4 (8 in the thorough tier), environments obey en => rdy. Not decided: histories, "
               "CL timing under a concrete schedule, interface adapters, mid-run reset of the 1-entry en/rdy and val/rdy Normal/Pipe "
               "queues (no reset on the full bit). Known finding: BypassQueue2RTL.enq.rdy is low with one of two entries occupied. "
               "valrdy_queues.py cannot be imported today (dead code) but is analysed.")
